@@ -246,6 +246,25 @@ fn run_ref_interop(plan: &Plan, lib: &dyn Lib, rec: &mut Rec) {
     rec.expect("C18", "library-verifies-reference-proof", o.is_ok(), || format!("elgamal ref->lib g={} | {:?}", g.name(), o));
     let o = rec.call(lib, g, Op::EgVerifyDecrypt, &[&bytes, &a.sk]);
     rec.expect("C18", "library-verifies-reference-proof", o.first() == Some(h.mul(&m).to_bytes().as_slice()), || format!("elgamal ref->lib verify_and_decrypt g={} | {:?}", g.name(), o.kind()));
+    // the same exchange over an APPLICATION's generator (the trait-level entry points take one): the transcript binds the
+    // generator that was used, not the default one
+    {
+        let h2 = b.pk_gen().mul(&refimpl::keygen(&x.bytes(12)));
+        let pr = refimpl::elgamal_prove(&b, &pk, &h2, &m, &bl, &rr);
+        let sc = |v: &refimpl::RefScalar| refimpl::scalar_to_be(v);
+        let o = rec.call(lib, g, Op::EgVerifyRaw, &[&a.pk, &h2.to_bytes(), &pr.c1.to_bytes(), &pr.c2.to_bytes(), &sc(&pr.message_proof), &sc(&pr.blinder_proof), &sc(&pr.challenge)]);
+        rec.expect("C18", "library-verifies-reference-proof", o.is_ok(), || format!("elgamal ref->lib own-generator g={} | a proof over an application's generator made as documented is rejected: {:?}", g.name(), o));
+        // ... and the default generator is NOT what that proof is about
+        let o = rec.call(lib, g, Op::EgVerifyRaw, &[&a.pk, &[], &pr.c1.to_bytes(), &pr.c2.to_bytes(), &sc(&pr.message_proof), &sc(&pr.blinder_proof), &sc(&pr.challenge)]);
+        rec.expect("C18", "generator-bound-by-transcript", !o.is_ok(), || format!("elgamal ref->lib own-generator-presented-under-default g={} | accepted", g.name()));
+        if let Some(v) = rec.call(lib, g, Op::EgSealRaw, &[&a.pk, &refimpl::scalar_to_be(&m), &h2.to_bytes()]).ok() {
+            let ok = (|| {
+                let r = refimpl::ElGamalProofRef { c1: Pt::from_bytes(&v[0])?, c2: Pt::from_bytes(&v[1])?, message_proof: refimpl::scalar_from_be(&v[2])?, blinder_proof: refimpl::scalar_from_be(&v[3])?, challenge: refimpl::scalar_from_be(&v[4])? };
+                Some(refimpl::elgamal_verify(&b, &pk, &h2, &r))
+            })();
+            rec.expect("C18", "reference-verifies-library-proof", ok == Some(true), || format!("elgamal lib->ref own-generator g={} | the reference transcript rejects the library's proof over an application's generator", g.name()));
+        }
+    }
     rec.sample(|| format!("scheme={} g={} len={} key_class={} — signcryption, time-lock, PoK (both variants), ElGamal proof exchanged with the reference in both directions", sch, g.name(), len, plan.get("key_class")));
     let _ = hex;
     c.finish(rec);
